@@ -14,6 +14,40 @@ fn verif_replay() {
     let path = match std::env::var("VERIF_REPLAY") { Ok(p) => p, Err(_) => return };
     let case: serde_json::Value = serde_json::from_str(&std::fs::read_to_string(path).unwrap()).unwrap();
     let a = case["args"].clone();
+    if case["driver"].as_str() == Some("copy_half_reset") {
+        // the source peer resets its TCP connection (SO_LINGER 0) instead of closing it: the direction must end with an error
+        let rt = tokio::runtime::Builder::new_current_thread().enable_all().build().unwrap();
+        let out = rt.block_on(async move {
+            use tokio::io::AsyncWriteExt;
+            use tokio::net::{TcpListener, TcpStream};
+            let l = TcpListener::bind("127.0.0.1:0").await.unwrap();
+            let addr = l.local_addr().unwrap();
+            let peer = TcpStream::connect(addr).await.unwrap();
+            let (ours, _) = l.accept().await.unwrap();
+            let (dst_ours, _dst_peer) = tokio::io::duplex(65536);
+            let (sr, mut sw) = tokio::io::split(ours);
+            let (_dr, dw) = tokio::io::split(dst_ours);
+            // make sure the reset is not a clean close: there is unread data on the peer's side
+            sw.write_all(b"unread").await.unwrap();
+            tokio::time::sleep(std::time::Duration::from_millis(50)).await;
+            peer.set_linger(Some(std::time::Duration::from_secs(0))).unwrap();
+            drop(peer);
+            let mut src = SrcHalf::new("client");
+            src.stream = Some(sr);
+            let mut dst = DstHalf::new("server");
+            dst.stream = Some(dw);
+            let stat: Arc<ContextStatistics> = Default::default();
+            let params = IoParams { buffer_size: 16, use_splice: false };
+            let r = tokio::time::timeout(std::time::Duration::from_secs(2), copy_half(&params, src, dst, stat,
+                #[cfg(feature = "metrics")] prometheus::IntCounter::new("verif_relay_reset", "x").unwrap())).await;
+            match r {
+                Err(_) => serde_json::json!({"panicked": false, "hang": true}),
+                Ok(res) => serde_json::json!({"panicked": false, "ok": res.is_ok(), "source_was_reset": true, "err": res.err().map(|e| format!("{} / {:?}", e, e.cause))}),
+            }
+        });
+        println!("VERIF-OUTCOME {}", out);
+        return;
+    }
     if case["driver"].as_str() == Some("handover") {
         // both peers send a line (consumed by the "handshake") with more bytes glued behind it in the same segment; the real
         // copy_bidi must deliver those extra bytes to the other side
